@@ -374,8 +374,11 @@ def run(ctx: Ctx) -> int:
                 "continuation happened (a result-producing call was accepted or refused when a result already "
                 "existed); distinct by the operation sequence")
     rep.assumptions = [
-        "model family x' = kin - k*x (one variable, two parameters); times in ticks of 0.5, parameter values in "
-        "units of 1/64 (dyadic: every float the harness passes is exact)",
+        "model family x' = kin - k*x (one variable, two parameters); times in ticks of 0.5 plus epsilons of 2^-9, "
+        "parameter values in units of 1/64 (dyadic and whole nanoseconds: every float the harness passes is exact); "
+        "histories with an epsilon point and no steady-state run are replayed a second time with ticks of 512 (an "
+        "epsilon is then a relative 1e-6 of the absolute time) and rates scaled by 1/1024 (same k*dt per tick)",
+        "rows with |x| < 1e-2 (relative budget below the integrator's atol 1e-8) are judged at 1e-7 absolute and counted",
         "the steady-state point's time stamp is free (only later than the time reached); its value is compared "
         "with the flow over the observed interval at 1e-4 relative and then taken as observed (accuracy is C15)",
         "clear_results: the state restarted from is not specified; it is read from the first row afterwards",
@@ -407,7 +410,7 @@ def run(ctx: Ctx) -> int:
             nvals += stats.get("n", 0)
     rep.notes["values_compared_with_closed_form"] = nvals
     rep.notes["worst_error_over_tolerance"] = round(worst, 4)
-    rep.notes["fragile_cases_excluded"] = 0
+    rep.notes["fragile_rows_judged_at_integrator_atol(|x|<1e-2)"] = sum(st.get("fragile", 0) for _, st in outs)
     for h in hs[:: max(1, len(hs) // 3)][:3]:
         rep.sample({"calls": [s["op"] for s in h], "refused": [s["raised"] for s in h],
                     "predicted_index_ticks": [[show_time(q) for q in g["times"]] for g in h[-1]["st"]["segs"]]})
